@@ -3,7 +3,7 @@ CONSTANT Names = {"x", "y"}
 CONSTANT NameSeq <- Seq2
 CONSTANT MaxScopes = 6
 CONSTANT MaxDepth = 3
-CONSTANT MaxEvStmt = 5
+CONSTANT MaxEvStmt = 6
 CONSTANT MaxEvExpr = 3
 CONSTANT WithLocset = FALSE
 CHECK_DEADLOCK FALSE
